@@ -5,18 +5,28 @@ import (
 	"go/ast"
 	"go/types"
 	"os"
-	"sort"
 
 	"verif/internal/flow"
 )
 
-// The rule tables name locals of the functions they inspect (`sindex`, `totalCnt`, `fsync`). A maintainer who renames
-// such a local changes no behaviour, and must not change a verdict. vocab.json records, for every function the rules
-// look into, each local's signature (type + source text of everything assigned to it). When a name the snapshot knows
-// is gone from a function and exactly one new-named local has the lost signature, that local is given the old name
-// in the canonical vocabulary. Anything less clear-cut (definition changed too, two candidates) is left alone: the
-// rules then see the code as it is.
-type VocabSnapshot map[string]map[string][]string // function -> local name -> signatures in declaration order
+// The rule tables name locals of the functions they inspect (`sindex`, `totalCnt`, `fsync`, and by scope ordinal
+// `err_2`, `idx_2`). A maintainer who renames such a local, or removes an unrelated local of the same name, changes no
+// behaviour and must not change a verdict. vocab.json records, for every function the rules look into, its locals in
+// declaration order with a *signature* each: type + source text of everything assigned to the local, with the local's
+// own name replaced by a placeholder and the receiver/parameters printed by role. At load the current locals are aligned
+// with the snapshot:
+//   1. a local whose name and signature both occur in the snapshot is that snapshot local (it keeps the ordinal the
+//      snapshot gave it among the locals of that name, whatever else was added or removed);
+//   2. snapshot locals still unmatched and current locals still unmatched are grouped by signature; where a group has
+//      equally many on both sides they are paired in declaration order: a renamed local gets the name (and ordinal)
+//      the rule tables know it by;
+//   3. everything else keeps its own name and is numbered after the known ordinals.
+// Anything less clear-cut (definition changed too) is left alone: the rules then see the code as it is.
+type VocabEntry struct {
+	N string `json:"n"`
+	S string `json:"s"`
+}
+type VocabSnapshot map[string][]VocabEntry // function -> locals in declaration order
 
 func LoadVocab(path string) VocabSnapshot {
 	b, err := os.ReadFile(path)
@@ -30,87 +40,104 @@ func LoadVocab(path string) VocabSnapshot {
 	return v
 }
 
-// SnapshotOf computes the snapshot entry of one function body.
-func SnapshotOf(info *types.Info, body *ast.BlockStmt) map[string][]string {
-	out := map[string][]string{}
-	for _, l := range flow.LocalSignatures(info, body) {
+// SnapshotOf computes the snapshot entry of one function.
+func SnapshotOf(info *types.Info, recv *ast.FieldList, ft *ast.FuncType, body *ast.BlockStmt) []VocabEntry {
+	var out []VocabEntry
+	for _, l := range flow.LocalSignaturesRoles(info, recv, ft, body) {
 		if l.Name == "_" {
 			continue
 		}
-		out[l.Name] = append(out[l.Name], l.Sig)
+		out = append(out, VocabEntry{l.Name, l.Sig})
 	}
 	return out
 }
 
-// aliasesFor recognises renamed locals of function fn.
-func (w *World) aliasesFor(fn string, info *types.Info, body *ast.BlockStmt) map[types.Object]string {
+// aliasesFor aligns the locals of function fn with the snapshot.
+func (w *World) aliasesFor(fn string, info *types.Info, recv *ast.FieldList, ft *ast.FuncType, body *ast.BlockStmt) map[types.Object]flow.LocalAlias {
 	snap := w.Vocab[fn]
-	if snap == nil {
+	if len(snap) == 0 {
 		return nil
 	}
-	cur := flow.LocalSignatures(info, body)
-	byName := map[string][]flow.LocalSig{}
-	for _, l := range cur {
-		byName[l.Name] = append(byName[l.Name], l)
+	var cur []flow.LocalSig
+	for _, l := range flow.LocalSignaturesRoles(info, recv, ft, body) {
+		if l.Name != "_" {
+			cur = append(cur, l)
+		}
 	}
-	var alias map[types.Object]string
-	used := map[types.Object]bool{}
-	names := make([]string, 0, len(snap))
-	for n := range snap {
-		names = append(names, n)
+	// ordinal of each snapshot entry among the entries of its name
+	ord := make([]int, len(snap))
+	cnt := map[string]int{}
+	for i, e := range snap {
+		cnt[e.N]++
+		ord[i] = cnt[e.N]
 	}
-	sort.Strings(names)
-	for _, name := range names {
-		want := snap[name]
-		have := byName[name]
-		if len(have) >= len(want) {
+	alias := map[types.Object]flow.LocalAlias{}
+	sUsed := make([]bool, len(snap))
+	cUsed := make([]bool, len(cur))
+	// 1. same name and same signature, in order
+	for ci, l := range cur {
+		for si, e := range snap {
+			if !sUsed[si] && e.N == l.Name && e.S == l.Sig {
+				sUsed[si], cUsed[ci] = true, true
+				alias[l.Obj] = flow.LocalAlias{Name: e.N, Ord: ord[si]}
+				break
+			}
+		}
+	}
+	// 2. by signature among the rest, only when the counts agree and no current candidate carries a snapshot name that
+	// is still present under another signature (that would be an edited definition, not a rename)
+	type grp struct{ s, c []int }
+	groups := map[string]*grp{}
+	var order []string
+	for si, e := range snap {
+		if !sUsed[si] {
+			if groups[e.S] == nil {
+				groups[e.S] = &grp{}
+				order = append(order, e.S)
+			}
+			groups[e.S].s = append(groups[e.S].s, si)
+		}
+	}
+	for ci, l := range cur {
+		if !cUsed[ci] {
+			if g := groups[l.Sig]; g != nil {
+				g.c = append(g.c, ci)
+			}
+		}
+	}
+	for _, sig := range order {
+		g := groups[sig]
+		if len(g.s) != len(g.c) {
 			continue
 		}
-		// signatures of the snapshot not accounted for by the locals that still carry the name
-		left := append([]string(nil), want...)
-		for _, h := range have {
-			for i, s := range left {
-				if s == h.Sig {
-					left = append(left[:i], left[i+1:]...)
-					break
-				}
+		for k := range g.s {
+			si, ci := g.s[k], g.c[k]
+			sUsed[si], cUsed[ci] = true, true
+			alias[cur[ci].Obj] = flow.LocalAlias{Name: snap[si].N, Ord: ord[si]}
+			if cur[ci].Name != snap[si].N {
+				w.Renamed = append(w.Renamed, fn+": "+cur[ci].Name+" is treated as "+snap[si].N+" (same type and definitions)")
 			}
 		}
-		if len(left) != len(want)-len(have) {
-			continue // the remaining ones changed too: not a plain rename
+	}
+	// 3. the rest: own name, numbered after the ordinals the snapshot knows for that name
+	for ci, l := range cur {
+		if !cUsed[ci] {
+			alias[l.Obj] = flow.LocalAlias{Name: l.Name, Ord: 0}
 		}
-		// group the lost signatures; a group is resolved when exactly as many new-named locals carry that signature
-		// (they are then matched in declaration order)
-		groups := map[string]int{}
-		for _, sig := range left {
-			groups[sig]++
-		}
-		for sig, n := range groups {
-			var cand []flow.LocalSig
-			for _, l := range cur {
-				if _, known := snap[l.Name]; known || used[l.Obj] || l.Name == "_" {
-					continue
-				}
-				if l.Sig == sig {
-					cand = append(cand, l)
-				}
-			}
-			// all candidates must share one new name (a rename changes one name into one other name)
-			same := true
-			for _, cnd := range cand {
-				if cnd.Name != cand[0].Name {
-					same = false
-				}
-			}
-			if len(cand) == n && same {
-				for _, cnd := range cand {
-					if alias == nil {
-						alias = map[types.Object]string{}
-					}
-					alias[cnd.Obj] = name
-					used[cnd.Obj] = true
-					w.Renamed = append(w.Renamed, fn+": "+cnd.Name+" is treated as "+name+" (same type and definitions)")
-				}
+	}
+	// reserve the snapshot's ordinals: an unmatched local must not take the ordinal of a snapshot local that merely
+	// disappeared (err_2 stays err_2 when the first err is removed). nameLocals numbers Ord 0 after the used ones, so mark
+	// missing ordinals as used through placeholder entries is not possible without objects; instead bump unmatched
+	// locals past the snapshot's count for their name.
+	next := map[string]int{}
+	for n, k := range cnt {
+		next[n] = k
+	}
+	for ci, l := range cur {
+		if !cUsed[ci] {
+			if k, known := next[l.Name]; known {
+				next[l.Name] = k + 1
+				alias[l.Obj] = flow.LocalAlias{Name: l.Name, Ord: k + 1}
 			}
 		}
 	}
